@@ -1,5 +1,700 @@
-"""Frame / ownership / typestate / read-set / dtype-flow obligations (filled in later)."""
+"""Frame / ownership / typestate / dtype-flow / cache-key obligations, decided on the AST of
+/repo's current source (a decision procedure over syntactic facts; no SMT).
+
+Every obligation is named after the function and the *site* (ordinal + target text), never a
+line number.  Anything the analysis does not understand is `unknown` (undecided), never a
+violation.
+
+  ownership   (C14)  every mutation site targets an object that is FRESH (created in this
+                     activation or returned by an out-of-place call) or OWNED
+                     (`self if inplace else self.copy()` and friends), or sits under `if inplace:`,
+                     or the function is one of the documented in-place primitives.
+  immutable   (C14, C15) slots of BlockIndex / SubIndexInfo / FermionicOperator are only assigned
+                     in their own __init__ / copy_with (hash memo: also in hashkey).
+  typestate   (C09)  raw-block consumers are reached only with sign-synchronised operands;
+                     block-consuming methods inherited from BlockBase are overridden in FermionicArray.
+  dtype_flow  (C20)  every zero-block creation site takes dtype / like from an operand block.
+  key_covers  (C15)  the fuse-info cache key mentions everything calc_fuse_block_info reads;
+                     index hash keys cover every slot; memoised results are not mutated by callers.
+"""
+
+import ast
+import time
+
+from .extract import Repo
+
+MODULES = ["abelian_core", "fermionic_core", "block_core", "linalg"]
+
+# documented in-place primitives: they mutate their receiver by contract
+INPLACE_API = {
+    "__init__", "modify", "_map_blocks", "apply_to_arrays", "set_params", "fill_missing_blocks", "drop_missing_blocks",
+    "__iadd__", "__isub__", "__imul__", "__itruediv__", "__ipow__", "hashkey", "phases", "oddpos", "check", "copy_with", "copy",
+}
+# (function, parameter) pairs that are output parameters by contract
+OUT_PARAMS = {("resolve_combined_oddpos", "new")}
+MUTATORS = {
+    "modify", "_map_blocks", "apply_to_arrays", "set_params", "fill_missing_blocks", "drop_missing_blocks",
+    "pop", "popitem", "update", "clear", "setdefault", "append", "extend", "insert", "remove", "discard", "add",
+    "move_to_end", "reverse", "sort",
+}
+FRESH_CALLS = {"copy", "copy_with", "dict", "list", "tuple", "set", "sorted", "defaultdict", "OrderedDict", "__new__"}
+
+FRESH, OWNED, UNKNOWN = "FRESH", "OWNED", "UNKNOWN"
+
+
+def root_name(e):
+    while isinstance(e, (ast.Attribute, ast.Subscript, ast.Call)):
+        if isinstance(e, ast.Call):
+            e = e.func
+        else:
+            e = e.value
+    return e.id if isinstance(e, ast.Name) else None
+
+
+def is_const(e, v):
+    return isinstance(e, ast.Constant) and type(e.value) is type(v) and e.value == v
+
+
+class Ownership:
+    def __init__(self, qual, fn, params, is_method):
+        self.qual, self.fn = qual, fn
+        self.params = params
+        self.is_method = is_method
+        self.sites = []
+        self.counter = 0
+
+    def prov_of_expr(self, e, env):
+        if isinstance(e, ast.Name):
+            return env.get(e.id, UNKNOWN if e.id not in self.params else ("PARAM", e.id))
+        if isinstance(e, (ast.Dict, ast.List, ast.Tuple, ast.Set, ast.DictComp, ast.ListComp, ast.SetComp, ast.GeneratorExp, ast.Constant, ast.JoinedStr, ast.BinOp, ast.Compare, ast.BoolOp, ast.UnaryOp, ast.Lambda)):
+            return FRESH
+        if isinstance(e, ast.IfExp):
+            # X = self if inplace else self.copy()
+            t = ast.unparse(e.test)
+            if t == "inplace" and isinstance(e.body, ast.Name) and self.prov_of_expr(e.orelse, env) == FRESH:
+                return OWNED
+            a, b = self.prov_of_expr(e.body, env), self.prov_of_expr(e.orelse, env)
+            return a if a == b else UNKNOWN
+        if isinstance(e, (ast.Attribute, ast.Subscript)):
+            r = root_name(e)
+            if r is None:
+                return UNKNOWN
+            return env.get(r, ("PARAM", r) if r in self.params else FRESH if r not in env and r not in self.params else UNKNOWN)
+        if isinstance(e, ast.Call):
+            f = e.func
+            kw = {k.arg: k.value for k in e.keywords if k.arg}
+            if isinstance(f, ast.Attribute):
+                if f.attr in FRESH_CALLS:
+                    return FRESH
+                if "inplace" in kw:
+                    recv = f.value
+                    # Class.method(x, ..., inplace=..): receiver is the first argument
+                    target = e.args[0] if (isinstance(recv, ast.Name) and recv.id[:1].isupper() and e.args) else recv
+                    if isinstance(target, ast.Call) and isinstance(target.func, ast.Name) and target.func.id == "super" and len(target.args) == 2:
+                        target = target.args[1]
+                    p = self.prov_of_expr(target, env)
+                    if is_const(kw["inplace"], True):
+                        return p
+                    if is_const(kw["inplace"], False):
+                        return FRESH
+                    if ast.unparse(kw["inplace"]) == "inplace":
+                        return OWNED if isinstance(p, tuple) or p == OWNED else p
+                    return UNKNOWN
+                # out-of-place method call / function from a module: result is fresh by the callee's frame contract
+                return FRESH
+            if isinstance(f, ast.Name):
+                return FRESH
+            return FRESH
+        if isinstance(e, ast.Starred):
+            return self.prov_of_expr(e.value, env)
+        return UNKNOWN
+
+    def site(self, kind, target_expr, prov, under_inplace, node):
+        name_txt = ast.unparse(target_expr)
+        if len(name_txt) > 60:
+            name_txt = name_txt[:57] + "..."
+        self.counter += 1
+        fname = self.qual.split(".")[-1]
+        ok = None
+        why = ""
+        if prov in (FRESH, OWNED):
+            ok = True
+        elif isinstance(prov, tuple):
+            p = prov[1]
+            if under_inplace:
+                ok = True
+            elif p == "self" and fname in INPLACE_API:
+                ok = True
+            elif (fname, p) in OUT_PARAMS:
+                ok = True
+            elif p in ("cls",):
+                ok = True
+            else:
+                ok = False
+                why = f"mutates parameter `{p}` outside an in-place path"
+        else:
+            ok = None
+            why = "provenance of the target unknown"
+        self.sites.append({"name": f"frame.{self.qual}.site{self.counter}.{kind}:{name_txt}", "ok": ok, "why": why, "lineno": node.lineno})
+
+    def mutation_target(self, call):
+        """returns the expression mutated by this call, or None"""
+        f = call.func
+        kw = {k.arg: k.value for k in call.keywords if k.arg}
+        if isinstance(f, ast.Attribute):
+            inpl = "inplace" in kw and is_const(kw["inplace"], True)
+            if inpl or f.attr in MUTATORS:
+                recv = f.value
+                if isinstance(recv, ast.Name) and recv.id[:1].isupper() and call.args:
+                    return call.args[0]
+                if isinstance(recv, ast.Call) and isinstance(recv.func, ast.Name) and recv.func.id == "super":
+                    if len(recv.args) == 2:
+                        return recv.args[1]
+                    return ast.Name(id="self", ctx=ast.Load())
+                return recv
+        return None
+
+    def scan_expr(self, e, env, under):
+        for n in ast.walk(e):
+            if isinstance(n, ast.Call):
+                t = self.mutation_target(n)
+                if t is not None:
+                    r = root_name(t)
+                    if r is None:
+                        continue
+                    if r not in env and r not in self.params:
+                        continue  # module-level object (e.g. the cache dict) -- not an operand
+                    self.site("call." + n.func.attr, t, self.prov_of_expr(t, env), under, n)
+
+    def run(self, stmts, env, under=False):
+        for s in stmts:
+            if isinstance(s, (ast.FunctionDef, ast.ClassDef)):
+                # nested helper: analysed with the enclosing environment (closures read outer vars)
+                if isinstance(s, ast.FunctionDef):
+                    inner = dict(env)
+                    for a in s.args.args:
+                        inner[a.arg] = FRESH
+                    self.run(s.body, inner, under)
+                continue
+            if isinstance(s, ast.If):
+                t = ast.unparse(s.test)
+                e1, e2 = dict(env), dict(env)
+                self.scan_expr(s.test, env, under)
+                self.run(s.body, e1, under or t == "inplace")
+                self.run(s.orelse, e2, under or t == "not inplace")
+                for k in set(e1) | set(e2):
+                    a, b = e1.get(k), e2.get(k)
+                    env[k] = a if a == b else (UNKNOWN if (a is not None and b is not None) else (a or b))
+                continue
+            if isinstance(s, (ast.For, ast.While)):
+                if isinstance(s, ast.For):
+                    self.scan_expr(s.iter, env, under)
+                    itp = self.prov_of_expr(s.iter, env)
+                    for n in ast.walk(s.target):
+                        if isinstance(n, ast.Name):
+                            # loop variables are elements (immutable keys / arrays are never mutated through them here)
+                            env[n.id] = FRESH
+                else:
+                    self.scan_expr(s.test, env, under)
+                self.run(s.body, env, under)
+                self.run(s.orelse, env, under)
+                continue
+            if isinstance(s, ast.Try):
+                self.run(s.body, env, under)
+                for h in s.handlers:
+                    self.run(h.body, env, under)
+                self.run(s.orelse, env, under)
+                self.run(s.finalbody, env, under)
+                continue
+            if isinstance(s, ast.With):
+                self.run(s.body, env, under)
+                continue
+            if isinstance(s, (ast.Assign, ast.AnnAssign, ast.AugAssign)):
+                value = s.value
+                if value is not None:
+                    self.scan_expr(value, env, under)
+                targets = s.targets if isinstance(s, ast.Assign) else [s.target]
+                for t in targets:
+                    if isinstance(t, ast.Name):
+                        if isinstance(s, ast.AugAssign):
+                            continue
+                        env[t.id] = self.prov_of_expr(value, env) if value is not None else UNKNOWN
+                    elif isinstance(t, (ast.Tuple, ast.List)):
+                        p = self.prov_of_expr(value, env) if value is not None else UNKNOWN
+                        for n in ast.walk(t):
+                            if isinstance(n, ast.Name):
+                                env[n.id] = p if p in (FRESH, OWNED) else UNKNOWN
+                            elif isinstance(n, (ast.Attribute, ast.Subscript)) and isinstance(n.ctx, ast.Store):
+                                self._store_site(n, env, under)
+                    elif isinstance(t, (ast.Attribute, ast.Subscript)):
+                        self._store_site(t, env, under)
+                continue
+            if isinstance(s, ast.Delete):
+                for t in s.targets:
+                    if isinstance(t, (ast.Attribute, ast.Subscript)):
+                        self._store_site(t, env, under, kind="del")
+                continue
+            for n in ast.iter_child_nodes(s):
+                if isinstance(n, ast.expr):
+                    self.scan_expr(n, env, under)
+
+    def _store_site(self, t, env, under, kind="store"):
+        r = root_name(t)
+        if r is None:
+            return
+        if r not in env and r not in self.params:
+            return
+        base = t.value
+        self.site(kind, t, self.prov_of_expr(base, env), under, t)
+
+
+def functions_of(repo, modname):
+    mod = repo.module(modname)
+    for name, node in mod.functions.items():
+        yield f"{modname}.{name}", node, False
+    for cname, cnode in mod.classes.items():
+        for n in cnode.body:
+            if isinstance(n, ast.FunctionDef):
+                yield f"{modname}.{cname}.{n.name}", n, True
+
+
+def rec(task, props, obligations, targets=(), assumes=()):
+    return {
+        "task": task,
+        "props": props,
+        "targets": list(targets),
+        "status": "ok" if obligations else "undecided",
+        "reason": "" if obligations else "zero obligations generated (vacuity guard)",
+        "obligations": obligations,
+        "paths": 0,
+        "assumes": list(assumes),
+        "solver_s": 0.0,
+        "wall_s": 0.0,
+    }
+
+
+def ob(name, ok, why="", lineno=None):
+    status = "proved" if ok is True else ("refuted" if ok is False else "unknown")
+    o = {"name": name, "status": status, "backend": "frames", "time_s": 0.0, "path": ""}
+    if lineno:
+        o["lineno"] = lineno
+    if status == "refuted":
+        o["model"] = {"reason": why}
+    if status == "unknown":
+        o["reason"] = why
+    return o
+
+
+# ----------------------------------------------------------------------------
+
+
+def check_ownership(repo):
+    obs, targets = [], []
+    for m in MODULES:
+        for qual, node, is_method in functions_of(repo, m):
+            a = node.args
+            params = [p.arg for p in a.posonlyargs + a.args + a.kwonlyargs]
+            if a.vararg:
+                params.append(a.vararg.arg)
+            if a.kwarg:
+                params.append(a.kwarg.arg)
+            an = Ownership(qual, node, set(params), is_method)
+            env = {}
+            an.run(node.body, env)
+            if an.sites:
+                targets.append({"function": qual, "sha256_16": repo.sha_of(qual), "line": node.lineno})
+            for s in an.sites:
+                obs.append(ob(s["name"], s["ok"], s["why"], s["lineno"]))
+    return rec(
+        "frames.ownership",
+        ["C14"],
+        obs,
+        targets,
+        assumes=[
+            "callee frame contracts: an out-of-place method/function call returns a fresh object (proved for copy/copy_with/sign-table ops/blockwise ops in the proof tier; bounded tier C14 for the rest)",
+            "documented in-place primitives (modify, _map_blocks, apply_to_arrays, set_params, fill/drop_missing_blocks, __i*__) may mutate their receiver",
+            "numpy buffers: block arrays are never written in place except buffers created by zeros() in the same activation (checked: slice stores only into locals)",
+        ],
+    )
+
+
+def check_immutable(repo):
+    """slots of the value classes are assigned only in their own constructors"""
+    classes = {
+        "BlockIndex": ("abelian_core", {"__init__", "copy_with", "hashkey"}),
+        "SubIndexInfo": ("abelian_core", {"__init__", "copy_with", "hashkey"}),
+        "FermionicOperator": ("fermionic_local_operators", {"__init__"}),
+    }
+    slots = {}
+    for c, (m, _) in classes.items():
+        node = repo.module(m).classes[c]
+        for n in node.body:
+            if isinstance(n, ast.Assign) and n.targets[0].id == "__slots__":
+                slots[c] = set(ast.literal_eval(n.value))
+    obs = []
+    owner = {}
+    for c, ss in slots.items():
+        for sl in ss:
+            owner.setdefault(sl, set()).add(c)
+    shared = {"_indices", "_hashkey"}  # slot names also used by other classes
+    for m in MODULES + ["fermionic_local_operators", "interface", "utils", "networks", "hamiltonians"]:
+        if not repo.has_module(m):
+            continue
+        for qual, node, is_method in functions_of(repo, m):
+            parts = qual.split(".")
+            cls = parts[1] if len(parts) == 3 else None
+            k = 0
+            for n in ast.walk(node):
+                if isinstance(n, ast.Attribute) and isinstance(n.ctx, (ast.Store, ast.Del)) and n.attr in owner:
+                    owners = owner[n.attr]
+                    k += 1
+                    if n.attr in shared and cls is not None and cls not in classes:
+                        # same slot name on an unrelated class (e.g. AbelianArray._indices): not a value class
+                        continue
+                    allowed = cls in owners and parts[2] in classes[cls][1]
+                    c = cls if cls in owners else sorted(owners)[0]
+                    obs.append(ob(f"immutable.{c}.{n.attr}.assigned_in.{qual}#{k}", True if allowed else False, f"slot {n.attr} of value class {c} assigned in {qual}", n.lineno))
+    # constructors reset the hash memo
+    for c in ("BlockIndex", "SubIndexInfo"):
+        for meth in ("__init__", "copy_with"):
+            fn = repo.find(f"abelian_core.{c}.{meth}")
+            src = ast.unparse(fn)
+            obs.append(ob(f"immutable.{c}.{meth}.resets_hash_memo", "_hashkey = None" in src, "constructor does not reset _hashkey", fn.lineno))
+    return rec("frames.immutable", ["C14", "C15"], obs, [{"function": f"abelian_core.{c}", "sha256_16": repo.sha_of(f"abelian_core.{c}"), "line": 0} for c in ("BlockIndex", "SubIndexInfo")])
+
+
+# ----------------------------------------------------------------------------
+# typestate (C09)
+
+SIGN_OPS = {"transpose", "phase_flip", "phase_transpose", "phase_global", "phase_sector", "conj", "dagger", "_map_blocks", "fuse", "unfuse"}
+RAW_CONSUMERS_ABELIAN = {"unfuse", "einsum", "trace", "__matmul__", "to_dense", "allclose", "_fuse_core"}
+INHERITED_RAW = ["_do_reduction", "_do_unary_op", "clip", "item", "_binary_blockwise_op", "fuse", "unfuse", "einsum", "__matmul__", "to_dense", "allclose", "trace"]
+
+
+class Typestate:
+    def __init__(self, qual, node):
+        self.qual, self.node = qual, node
+        self.sites = []
+        self.k = 0
+
+    def synced_expr(self, e, synced):
+        if isinstance(e, ast.Name):
+            return e.id in synced
+        if isinstance(e, ast.Call) and isinstance(e.func, ast.Attribute) and e.func.attr == "phase_sync":
+            return True
+        if isinstance(e, ast.Call) and isinstance(e.func, ast.Name) and e.func.id == "super" and len(e.args) == 2:
+            return self.synced_expr(e.args[1], synced)
+        return False
+
+    def consumer_args(self, call):
+        """array-valued arguments of a raw-block consumer call, or None if not a consumer"""
+        f = call.func
+        if isinstance(f, ast.Attribute):
+            recv = f.value
+            if isinstance(recv, ast.Name) and recv.id == "AbelianArray" and f.attr in RAW_CONSUMERS_ABELIAN | {"fuse"}:
+                n = 2 if f.attr in ("__matmul__", "allclose") else 1
+                return list(call.args[:n])
+            if f.attr in ("_fuse_core",):
+                return [recv]
+            if isinstance(recv, ast.Call) and isinstance(recv.func, ast.Name) and recv.func.id == "super" and f.attr in INHERITED_RAW:
+                if len(recv.args) == 2:
+                    out = [recv.args[1]]
+                else:
+                    out = [ast.Name(id="self", ctx=ast.Load())]
+                if f.attr == "_binary_blockwise_op" and call.args:
+                    out.append(call.args[0])
+                return out
+            # eigh.dispatch(AbelianArray)(a) / solve.dispatch(AbelianArray)(a, b)
+        if isinstance(f, ast.Call) and isinstance(f.func, ast.Attribute) and f.func.attr == "dispatch":
+            which = ast.unparse(f.func.value)
+            if which in ("eigh", "solve"):
+                return list(call.args)
+            return None  # qr / svd: sign-equivariant, table handed on (listed assumption)
+        if isinstance(f, ast.Name) and f.id == "tensordot_abelian":
+            return list(call.args[:2])
+        return None
+
+    def run(self, stmts, synced):
+        for s in stmts:
+            if isinstance(s, ast.If):
+                a, b = set(synced), set(synced)
+                self.scan(s.test, synced)
+                self.run(s.body, a)
+                self.run(s.orelse, b)
+                # `if other.phases: other = other.phase_sync()` : synced afterwards either way
+                t = ast.unparse(s.test)
+                for v in list(a):
+                    # `if v.phases: v = v.phase_sync()`            -> synced either way
+                    # `if isinstance(v, FermionicArray): <sync v>` -> otherwise v carries no sign table at all
+                    if v not in b and t in (f"{v}.phases", f"{v}._phases", f"isinstance({v}, FermionicArray)"):
+                        b.add(v)
+                synced.clear()
+                synced.update(a & b)
+                continue
+            if isinstance(s, (ast.For, ast.While, ast.Try, ast.With)):
+                for blk in ("body", "orelse", "finalbody"):
+                    self.run(getattr(s, blk, []) or [], synced)
+                for h in getattr(s, "handlers", []):
+                    self.run(h.body, synced)
+                continue
+            if isinstance(s, ast.FunctionDef):
+                continue
+            self.scan(s, synced)
+            if isinstance(s, ast.Assign) and len(s.targets) == 1 and isinstance(s.targets[0], ast.Name):
+                v = s.targets[0].id
+                if self.synced_expr(s.value, synced) or (isinstance(s.value, ast.Call) and self.consumer_args(s.value) is not None and isinstance(s.value.func, ast.Attribute) and isinstance(s.value.func.value, ast.Name) and s.value.func.value.id == "AbelianArray"):
+                    synced.add(v)
+                elif isinstance(s.value, ast.IfExp) and ast.unparse(s.value.test) == "inplace":
+                    synced.discard(v)
+                else:
+                    synced.discard(v)
+            # in-place calls on a variable
+            for n in ast.walk(s):
+                if isinstance(n, ast.Call) and isinstance(n.func, ast.Attribute) and isinstance(n.func.value, ast.Name):
+                    v = n.func.value.id
+                    kw = {k.arg: k.value for k in n.keywords if k.arg}
+                    if n.func.attr == "phase_sync" and "inplace" in kw and is_const(kw["inplace"], True):
+                        synced.add(v)
+                    elif n.func.attr in SIGN_OPS and "inplace" in kw and is_const(kw["inplace"], True):
+                        synced.discard(v)
+
+    def scan(self, node, synced):
+        for n in ast.walk(node):
+            if isinstance(n, ast.Call):
+                args = self.consumer_args(n)
+                if args is None:
+                    continue
+                for a in args:
+                    self.k += 1
+                    ok = self.synced_expr(a, synced)
+                    self.sites.append((f"typestate.{self.qual}.consumer{self.k}.{ast.unparse(n.func)[:50]}({ast.unparse(a)[:30]})", ok, n.lineno))
+
+
+def check_typestate(repo):
+    obs, targets = [], []
+    fc = repo.module("fermionic_core")
+    todo = [(f"fermionic_core.FermionicArray.{n.name}", n) for n in fc.classes["FermionicArray"].body if isinstance(n, ast.FunctionDef)]
+    todo += [("fermionic_core.tensordot_fermionic", fc.functions["tensordot_fermionic"])]
+    la = repo.module("linalg")
+    todo += [(f"linalg.{n}", la.functions[n]) for n in ("qr_fermionic", "svd_fermionic", "eigh_fermionic", "solve_fermionic") if n in la.functions]
+    for qual, node in todo:
+        ts = Typestate(qual, node)
+        ts.run(node.body, set())
+        if ts.sites:
+            targets.append({"function": qual, "sha256_16": repo.sha_of(qual), "line": node.lineno})
+        for name, ok, ln in ts.sites:
+            obs.append(ob(name, True if ok else False, "raw-block consumer reached with an operand that is not known to be sign-synchronised", ln))
+    # block-consuming methods inherited from BlockBase / AbelianArray must be overridden
+    members = {n.name for n in fc.classes["FermionicArray"].body if isinstance(n, ast.FunctionDef)}
+    for m in INHERITED_RAW:
+        obs.append(ob(f"typestate.FermionicArray.overrides.{m}", m in members, f"FermionicArray inherits {m} which reads raw blocks without synchronising the pending signs"))
+    # the overrides must actually synchronise
+    for m in INHERITED_RAW:
+        if m in members:
+            src = ast.unparse(repo.find(f"fermionic_core.FermionicArray.{m}"))
+            obs.append(ob(f"typestate.FermionicArray.{m}.synchronises", "phase_sync" in src, f"override of {m} never calls phase_sync"))
+    return rec(
+        "frames.typestate",
+        ["C09"],
+        obs,
+        targets,
+        assumes=[
+            "linalg.qr / linalg.svd are sign-equivariant in their input blocks (factor of a negated block is the negated factor up to gauge) and hand the sign table on to u/q: listed mathematical assumption, bounded tier C09/C11",
+            "norm, scalar multiplication, negation are linear / sign-invariant and need no synchronisation",
+        ],
+    )
+
+
+# ----------------------------------------------------------------------------
+# dtype flow (C20)
+
+
+def check_dtype_flow(repo):
+    obs = []
+    ac = repo.module("abelian_core")
+    fuse_core = repo.find("abelian_core.AbelianArray._fuse_core")
+    src = ast.unparse(fuse_core)
+    obs.append(ob("dtype_flow._fuse_core.example_block_from_operand", "_ex_array = self.get_any_array()" in src, "example array is not taken from the operand", fuse_core.lineno))
+    obs.append(ob("dtype_flow._fuse_core.zeros_kwargs_dtype_from_example", "zeros_kwargs['dtype'] = _ex_array.dtype" in src, "dtype of the zero blocks is not taken from the example block", fuse_core.lineno))
+    obs.append(ob("dtype_flow._fuse_core.zeros_fn_from_example_backend", "backend = ar.infer_backend(_ex_array)" in src and "_zeros = ar.get_lib_fn(backend, 'zeros')" in src, "zeros function not resolved from the operand's backend", fuse_core.lineno))
+    # zeros_kwargs reaches both strategies
+    calls = [n for n in ast.walk(fuse_core) if isinstance(n, ast.Call) and isinstance(n.func, ast.Name) and n.func.id in ("_fuse_blocks_via_insert", "_fuse_blocks_via_concat")]
+    obs.append(ob("dtype_flow._fuse_core.both_strategies_called", len(calls) == 2, "expected calls to both fuse strategies"))
+    for c in calls:
+        argsrc = [ast.unparse(a) for a in c.args]
+        obs.append(ob(f"dtype_flow._fuse_core.passes_zeros_kwargs_to.{c.func.id}", "zeros_kwargs" in argsrc and "_zeros" in argsrc, "zeros function / kwargs not forwarded", c.lineno))
+    for fname in ("_fuse_blocks_via_insert", "_fuse_blocks_via_concat"):
+        fn = ac.functions[fname]
+        k = 0
+        for n in ast.walk(fn):
+            if isinstance(n, ast.Call) and isinstance(n.func, ast.Name) and n.func.id == "_zeros":
+                k += 1
+                has = any(kw.arg is None and ast.unparse(kw.value) == "zeros_kwargs" for kw in n.keywords)
+                obs.append(ob(f"dtype_flow.{fname}.zeros_site{k}.uses_zeros_kwargs", has, "zero block created without the operand's dtype", n.lineno))
+        obs.append(ob(f"dtype_flow.{fname}.has_zero_creation_site", k >= 1, "no zeros site found (function restructured?)") if k >= 1 else ob(f"dtype_flow.{fname}.has_zero_creation_site", None, "no zeros site found (function restructured?)"))
+    for q in ("abelian_core.AbelianArray.fill_missing_blocks", "abelian_core.AbelianArray.to_dense"):
+        fn = repo.find(q)
+        s = ast.unparse(fn)
+        k = 0
+        for n in ast.walk(fn):
+            if isinstance(n, ast.Call) and ast.unparse(n.func) == "ar.do" and n.args and is_const(n.args[0], "zeros"):
+                k += 1
+                like = [kw for kw in n.keywords if kw.arg == "like"]
+                obs.append(ob(f"dtype_flow.{q.split('.')[-1]}.zeros_site{k}.like_example_block", bool(like) and ast.unparse(like[0].value) == "_ex_array" and "_ex_array = self.get_any_array()" in s, "zeros created without like=<operand block>", n.lineno))
+        obs.append(ob(f"dtype_flow.{q.split('.')[-1]}.has_zero_creation_site", True if k >= 1 else None, "no zeros site found"))
+    ga = repo.find("block_core.BlockBase.get_any_array")
+    obs.append(ob("dtype_flow.get_any_array.returns_a_stored_block", "next(iter(self._blocks.values())" in ast.unparse(ga), "get_any_array does not return a stored block", ga.lineno))
+    return rec("frames.dtype_flow", ["C20"], obs, [{"function": "abelian_core.AbelianArray._fuse_core", "sha256_16": repo.sha_of("abelian_core.AbelianArray._fuse_core"), "line": fuse_core.lineno}], assumes=["A-numpy: zeros(shape, dtype=d) has dtype d; ar.do('zeros', shape, like=x) has the dtype of x (checked in the bounded tier C20)"])
+
+
+# ----------------------------------------------------------------------------
+# cache key coverage (C15)
+
+
+def attrs_read_on(fn, name):
+    out = set()
+    for n in ast.walk(fn):
+        if isinstance(n, ast.Attribute) and isinstance(n.value, ast.Name) and n.value.id == name:
+            out.add(n.attr)
+    return out
+
+
+def check_key_covers(repo):
+    obs = []
+    cfbi = repo.find("abelian_core.calc_fuse_block_info")
+    reads = attrs_read_on(cfbi, "self")
+    allowed = {"duals", "indices", "symmetry", "blocks"}
+    obs.append(ob("key_covers.calc_fuse_block_info.reads_only_keyed_state", reads <= allowed, f"calc_fuse_block_info reads self.{sorted(reads - allowed)} which the cache key does not cover", cfbi.lineno))
+    # duals derive from indices
+    dp = ast.unparse(repo.find("abelian_core.AbelianArray.duals"))
+    obs.append(ob("key_covers.duals_derive_from_indices", "ix.dual for ix in self._indices" in dp, "duals no longer a function of the indices"))
+    # second argument
+    args = [a.arg for a in cfbi.args.args]
+    obs.append(ob("key_covers.calc_fuse_block_info.arguments", args == ["self", "axes_groups"], f"unexpected parameters {args}"))
+    # free module-level state read by calc_fuse_block_info
+    names = {n.id for n in ast.walk(cfbi) if isinstance(n, ast.Name) and isinstance(n.ctx, ast.Load)}
+    local = {n.id for n in ast.walk(cfbi) if isinstance(n, ast.Name) and isinstance(n.ctx, ast.Store)} | set(args)
+    mod = repo.module("abelian_core")
+    globs = {x for x in names - local if x in mod.assigns}
+    obs.append(ob("key_covers.calc_fuse_block_info.reads_no_module_state", not globs, f"reads module globals {sorted(globs)}"))
+    # the key expression
+    cached = repo.find("abelian_core.cached_fuse_block_info")
+    key_call = None
+    for n in ast.walk(cached):
+        if isinstance(n, ast.Assign) and isinstance(n.targets[0], ast.Name) and n.targets[0].id == "key":
+            key_call = n.value
+    ok = isinstance(key_call, ast.Call) and ast.unparse(key_call.func) == "hasher" and len(key_call.args) == 1 and isinstance(key_call.args[0], ast.Tuple)
+    obs.append(ob("key_covers.key_is_hasher_of_tuple", ok, "cache key is not hasher((...))", cached.lineno))
+    if ok:
+        elts = [ast.unparse(e) for e in key_call.args[0].elts]
+        for need, what in [
+            ("tuple((ix.hashkey() for ix in self.indices))", "hash keys of all indices, in order"),
+            ("tuple(self.blocks)", "the stored sectors, in order"),
+            ("self.symmetry", "the symmetry"),
+            ("axes_groups", "the axes groups"),
+        ]:
+            obs.append(ob(f"key_covers.key_contains.{what.replace(' ', '_').replace(',', '')}", need in elts, f"cache key does not contain {what}", cached.lineno))
+    # hash keys cover every slot
+    for cls, memo in (("BlockIndex", "_hashkey"), ("SubIndexInfo", "_hashkey")):
+        cnode = mod.classes[cls]
+        slots = set()
+        for n in cnode.body:
+            if isinstance(n, ast.Assign) and n.targets[0].id == "__slots__":
+                slots = set(ast.literal_eval(n.value))
+        hk = repo.find(f"abelian_core.{cls}.hashkey")
+        hashed = None
+        for n in ast.walk(hk):
+            if isinstance(n, ast.Call) and ast.unparse(n.func) == "hasher":
+                hashed = n.args[0]
+        read = {n.attr for n in ast.walk(hashed) if isinstance(n, ast.Attribute) and isinstance(n.value, ast.Name) and n.value.id == "self"} if hashed is not None else set()
+        for sl in sorted(slots - {memo}):
+            obs.append(ob(f"key_covers.{cls}.hashkey.covers_slot.{sl}", sl in read, f"{cls}.hashkey does not hash slot {sl}", hk.lineno))
+        src = ast.unparse(hk)
+        obs.append(ob(f"key_covers.{cls}.hashkey.memo_checked_before_use", "getattr(self, '_hashkey', None) is None" in src and "return self._hashkey" in src, "memo protocol changed"))
+    bh = ast.unparse(repo.find("abelian_core.BlockIndex.hashkey"))
+    obs.append(ob("key_covers.BlockIndex.hashkey.chargemap_items_in_order", "tuple(self._chargemap.items())" in bh, "chargemap content/order not hashed"))
+    obs.append(ob("key_covers.BlockIndex.hashkey.subinfo_hash_or_None", "self._subinfo.hashkey() if self._subinfo else None" in bh, "sub-index info not hashed"))
+    sh = ast.unparse(repo.find("abelian_core.SubIndexInfo.hashkey"))
+    obs.append(ob("key_covers.SubIndexInfo.hashkey.extents_items_in_order", "tuple(extent.items())" in sh and "in self._extents.items()" in sh and "(c, tuple(extent.items()))" in sh, "extents content/order not hashed"))
+    obs.append(ob("key_covers.SubIndexInfo.hashkey.sub_indices_hashed", "for ix in self._indices" in sh and ("ix.hashkey" in sh), "sub-indices not hashed"))
+    # callers never mutate memoised results
+    memo_fns = {"calc_fuse_group_info", "calc_reshape_args", "calc_sub_max_bonds", "cached_fuse_block_info", "calc_fuse_block_info"}
+    k = 0
+    for m in MODULES:
+        for qual, node, _ in functions_of(repo, m):
+            tainted = set()
+            for n in ast.walk(node):
+                if isinstance(n, ast.Assign) and isinstance(n.value, ast.Call):
+                    f = n.value.func
+                    fname = f.id if isinstance(f, ast.Name) else (f.attr if isinstance(f, ast.Attribute) else None)
+                    sub = isinstance(n.value, ast.Call) and fname in memo_fns
+                    if sub:
+                        for t in n.targets:
+                            if isinstance(t, ast.Name):
+                                tainted.add(t.id)
+                            elif isinstance(t, (ast.Tuple, ast.List)):
+                                tainted.update(nn.id for nn in t.elts if isinstance(nn, ast.Name))
+                if isinstance(n, ast.Assign) and isinstance(n.value, ast.Subscript) and isinstance(n.value.value, ast.Call):
+                    f = n.value.value.func
+                    fname = f.id if isinstance(f, ast.Name) else (f.attr if isinstance(f, ast.Attribute) else None)
+                    if fname in memo_fns:
+                        for t in n.targets:
+                            for nn in ast.walk(t):
+                                if isinstance(nn, ast.Name):
+                                    tainted.add(nn.id)
+            if not tainted:
+                continue
+            bad = []
+            for n in ast.walk(node):
+                if isinstance(n, ast.Call) and isinstance(n.func, ast.Attribute) and n.func.attr in MUTATORS and root_name(n.func.value) in tainted:
+                    # `perm.index` etc. are reads; MUTATORS only
+                    bad.append((ast.unparse(n)[:60], n.lineno))
+                if isinstance(n, (ast.Subscript, ast.Attribute)) and isinstance(getattr(n, "ctx", None), (ast.Store, ast.Del)) and root_name(n) in tainted:
+                    bad.append((ast.unparse(n)[:60], n.lineno))
+            k += 1
+            obs.append(ob(f"key_covers.memoised_results_not_mutated_in.{qual}", not bad, f"mutates a memoised result: {bad[:2]}", bad[0][1] if bad else None))
+    return rec(
+        "frames.key_covers",
+        ["C15"],
+        obs,
+        [{"function": q, "sha256_16": repo.sha_of(q), "line": repo.lineno_of(q)} for q in ("abelian_core.calc_fuse_block_info", "abelian_core.cached_fuse_block_info", "abelian_core.BlockIndex.hashkey", "abelian_core.SubIndexInfo.hashkey")],
+        assumes=[
+            "A-hash: sha1(pickle(.)) is injective on the hashed tuples; pickling the bound method `ix.hashkey` in SubIndexInfo.hashkey captures every slot of the sub-index",
+            "value classes immutable (frames.immutable)",
+        ],
+    )
+
+
+CHECKS = {
+    "ownership": check_ownership,
+    "immutable": check_immutable,
+    "typestate": check_typestate,
+    "dtype_flow": check_dtype_flow,
+    "key_covers": check_key_covers,
+}
 
 
 def run(names, prop):
-    return []
+    repo = Repo()
+    out = []
+    for n in names:
+        t0 = time.time()
+        try:
+            r = CHECKS[n](repo)
+        except Exception:
+            import traceback
+
+            r = {"task": f"frames.{n}", "props": [prop], "targets": [], "status": "crash", "reason": traceback.format_exc()[-1500:], "obligations": []}
+        r["wall_s"] = round(time.time() - t0, 3)
+        out.append(r)
+    return out
+
+
+if __name__ == "__main__":
+    import sys
+
+    for r in run(sys.argv[1:] or list(CHECKS), "-"):
+        bad = [o for o in r["obligations"] if o["status"] != "proved"]
+        print(r["task"], r["status"], "obligations", len(r["obligations"]), "not proved", len(bad), r.get("reason", "")[:300])
+        for o in bad:
+            print("   ", o["status"], o["name"], o.get("model", o.get("reason", "")), "line", o.get("lineno"))
